@@ -13,7 +13,7 @@ struct cds_lfq_node_rcu_dummy PL0, PL1, PL2, PL3, PL4;
 static inline struct cds_lfq_node_rcu_dummy *PLP(int i) { return i == 0 ? &PL0 : i == 1 ? &PL1 : i == 2 ? &PL2 : i == 3 ? &PL3 : &PL4; }
 void *my_malloc(size_t sz) { int k = (int)rt_gget(63); rt_assert(k < NPOOL && sz == sizeof(struct cds_lfq_node_rcu_dummy), "dummy pool large enough"); rt_gset(63, k + 1); return PLP(k); }
 void my_free(void *p) {
-  int i = -1; for (int k = 0; k < NPOOL; k++) if (p == (void *)PLP(k)) i = k;
+  int i = p == (void *)&PL0 ? 0 : p == (void *)&PL1 ? 1 : p == (void *)&PL2 ? 2 : p == (void *)&PL3 ? 3 : p == (void *)&PL4 ? 4 : -1;
   rt_assert(i >= 0, "free() of a pointer that malloc() did not return");
   rt_assert(!((rt_gget(61) >> i) & 1), "double free of a dummy node");
   rt_gset(61, rt_gget(61) | (1u << i));
@@ -32,7 +32,7 @@ static void my_call_rcu(struct rcu_head *head, void (*func)(struct rcu_head *)) 
 }
 static inline int idx(struct cds_lfq_node_rcu *n) {
   if (n == 0) return H_NONE;
-  for (int i = 0; i < H_NN; i++) if (n == NP(i)) return i;
+  if (n == &N0) return 0; if (n == &N1) return 1; if (n == &N2) return 2; if (n == &N3) return 3;      /* no loop: thread code has a small per-turn unwinding */
   rt_assert(0, "dequeue returned a pointer that is not a user node (dummy leaked to the user)"); return H_NONE;
 }
 static inline void enq(int i) { h_ins_call(i); cds_lfq_node_init_rcu(NP(i)); cds_lfq_enqueue_rcu(&Q, NP(i)); h_ins_ret(i, 0); }
@@ -48,7 +48,7 @@ void t3(void) { int a = deq(1); int b = deq(2); rt_cover(a >= 0 && b >= 0, "one 
 #define NDQ 3
 #endif
 #if SCEN == 2     /* two threads, each enqueue then dequeue */
-void t1(void) { enq(0); int v = deq(0); rt_cover(v == 1, "thread 1 dequeued the other thread's node"); }
+void t1(void) { enq(0); int v = deq(0); rt_gset(59, v + 3); }
 void t2(void) { enq(1); deq(1); }
 #define NDQ 2
 #endif
@@ -61,6 +61,9 @@ void epilogue(void) {
   int np = (int)rt_gget(62);
   for (int k = 0; k < 6; k++) if (k < np) PFN[k](PEND[k]);
   rt_cover(np >= 1, "a dummy node was retired through call_rcu");
+#if SCEN == 2
+  rt_cover(rt_gget(59) == 1 + 3, "thread 1 dequeued the other thread's node");
+#endif
   rt_assert(destroy_seq() == 0, "destroy succeeds on an empty queue");
   rt_assert(rt_gget(61) == (1u << rt_gget(63)) - 1, "every dummy node ever allocated has been freed exactly once (retired ones by their callback, the last by destroy)");
 }
